@@ -883,26 +883,26 @@ func checkColumnList(r *Relation, cols []string) error {
 	return nil
 }
 
-func (rs *RelationService) Insert(tableName string, cols []string, vals []interface{}) (WALBatch, error) {
-	var walLogs WALBatch
-
+// encodeRow is the part of Insert that changes nothing: it finds the table and
+// encodes the row, and reports what is wrong with the table name or the row.
+func (rs *RelationService) encodeRow(tableName string, cols []string, vals []interface{}) (int64, *btreeNode, *bytes.Buffer, error) {
 	if isSysTable(tableName) {
-		return walLogs, ErrSysTableReadOnly
+		return 0, nil, nil, ErrSysTableReadOnly
 	}
 
 	fileOffset, err := rs.getRelationFileOffset(tableName)
 	if err != nil {
-		return walLogs, err
+		return 0, nil, nil, err
 	}
 
 	tablePg, err := rs.fs.fetch(uint64(fileOffset))
 	if err != nil {
-		return walLogs, err
+		return 0, nil, nil, err
 	}
 
 	schema, err := rs.getRelationSchema(tableName)
 	if err != nil {
-		return walLogs, err
+		return 0, nil, nil, err
 	}
 
 	tuple := Tuple{
@@ -918,11 +918,11 @@ func (rs *RelationService) Insert(tableName string, cols []string, vals []interf
 	}
 
 	if len(cols) != len(vals) {
-		return walLogs, ErrColCountMismatch
+		return 0, nil, nil, ErrColCountMismatch
 	}
 
 	if err := checkColumnList(schema, cols); err != nil {
-		return walLogs, err
+		return 0, nil, nil, err
 	}
 
 	for i, col := range cols {
@@ -930,6 +930,28 @@ func (rs *RelationService) Insert(tableName string, cols []string, vals []interf
 	}
 
 	buf, err := tuple.Encode()
+	if err != nil {
+		return 0, nil, nil, err
+	}
+
+	return fileOffset, tablePg, buf, nil
+}
+
+// CheckInsert reports, without changing anything, the error Insert would return
+// because of the table name or the row itself. A multi-row INSERT checks every
+// row with it before it stores the first one.
+func (rs *RelationService) CheckInsert(tableName string, cols []string, vals []interface{}) error {
+	_, _, buf, err := rs.encodeRow(tableName, cols, vals)
+	if err != nil {
+		return err
+	}
+	return checkRowSizeLimit(buf.Bytes())
+}
+
+func (rs *RelationService) Insert(tableName string, cols []string, vals []interface{}) (WALBatch, error) {
+	var walLogs WALBatch
+
+	fileOffset, tablePg, buf, err := rs.encodeRow(tableName, cols, vals)
 	if err != nil {
 		return walLogs, err
 	}
